@@ -126,43 +126,66 @@ def run_driver(repo=REPO, log=sys.stderr, extra_args=("--workspace", "--lib"), f
     print("[gmxsa] facts extracted in %.1fs" % (time.time() - t), file=log)
 
 
+def _stamp_ok(stamp_path, want, facts_dir):
+    if not os.path.exists(stamp_path):
+        return None
+    try:
+        have = json.load(open(stamp_path))
+    except Exception:
+        return None
+    if all(have.get(k) == v for k, v in want.items()) and all(
+            os.path.exists(os.path.join(facts_dir, c + ".lib.json")) for c in EXPECTED_CRATES):
+        return have
+    return None
+
+
 def ensure(log=sys.stderr, repo=None, facts_dir=None):
-    """Make sure the facts directory corresponds to the current tree of `repo`. Returns the stamp dict."""
+    """Make sure the facts directory corresponds to the current tree of `repo`. Returns the stamp dict.
+
+    Fast path (no lock): the digest of the tree equals the one stored with the facts. Otherwise the
+    extraction runs under an exclusive lock (the cargo target dir is shared) into a temporary directory
+    that replaces the facts directory atomically, so concurrent readers never see partial facts."""
     repo = repo or REPO
     facts_dir = facts_dir or FACTS
     stamp_path = os.path.join(facts_dir, "STAMP.json")
     os.makedirs(CACHE, exist_ok=True)
+    digest, nfiles = repo_digest(repo)
+    want = {"repo_digest": digest, "driver_digest": driver_digest(), "repo": repo}
+    have = _stamp_ok(stamp_path, want, facts_dir)
+    if have is not None and os.path.exists(DRIVER_BIN):
+        return have
     lock = open(os.path.join(CACHE, "lock"), "w")
     fcntl.flock(lock, fcntl.LOCK_EX)
     try:
         build_driver(log)
         digest, nfiles = repo_digest(repo)
         want = {"repo_digest": digest, "driver_digest": driver_digest(), "repo": repo}
-        if os.path.exists(stamp_path):
-            try:
-                have = json.load(open(stamp_path))
-            except Exception:
-                have = {}
-            if all(have.get(k) == v for k, v in want.items()) and all(
-                    os.path.exists(os.path.join(facts_dir, c + ".lib.json")) for c in EXPECTED_CRATES):
-                return have
-        # stale or missing: full re-extraction
+        have = _stamp_ok(stamp_path, want, facts_dir)
+        if have is not None:
+            return have
         print("[gmxsa] facts stale or missing — re-extracting from %s (%d source files)" % (repo, nfiles), file=log)
-        shutil.rmtree(facts_dir, ignore_errors=True)
-        os.makedirs(facts_dir, exist_ok=True)
+        tmp = facts_dir.rstrip("/") + ".tmp%d" % os.getpid()
+        shutil.rmtree(tmp, ignore_errors=True)
+        os.makedirs(tmp, exist_ok=True)
         _purge_fingerprints(repo)
-        run_driver(repo, log, facts_dir=facts_dir)
-        missing = [c for c in EXPECTED_CRATES if not os.path.exists(os.path.join(facts_dir, c + ".lib.json"))]
+        run_driver(repo, log, facts_dir=tmp)
+        missing = [c for c in EXPECTED_CRATES if not os.path.exists(os.path.join(tmp, c + ".lib.json"))]
         if missing:
+            shutil.rmtree(tmp, ignore_errors=True)
             raise SystemExit("gmxsa: no facts produced for crates %s (fail closed)" % missing)
-        # the digest must not have moved while we were extracting
         digest2, _ = repo_digest(repo)
         if digest2 != digest:
+            shutil.rmtree(tmp, ignore_errors=True)
             raise SystemExit("gmxsa: %s changed during extraction; re-run" % repo)
         want["n_source_files"] = nfiles
         want["extracted_at"] = time.time()
-        with open(stamp_path, "w") as fh:
+        with open(os.path.join(tmp, "STAMP.json"), "w") as fh:
             json.dump(want, fh)
+        old = facts_dir.rstrip("/") + ".old%d" % os.getpid()
+        if os.path.exists(facts_dir):
+            os.rename(facts_dir, old)
+        os.rename(tmp, facts_dir)
+        shutil.rmtree(old, ignore_errors=True)
         return want
     finally:
         fcntl.flock(lock, fcntl.LOCK_UN)
